@@ -13,8 +13,23 @@
    Err EIndex); it is outside the property's domain (">= 1 atom with two bonds"). *)
 From GM Require Import Proofs.RTac Model.Aux Proofs.AuxR Model.ExchangeMap Proofs.ExchangeMapL Proofs.ExchangeMapR
   Proofs.ExchangeMapEx.
+From GM Require Import Gen.KernelsGen Proofs.KernelsGenEq.
 Import ListNotations.
 Local Open Scope R_scope.
+
+(* The tie by translation: ExchangeMap._proyect_point and _restore_point as generated at this run from the
+   CURRENT source text of gaddlemaps/_exchage_map.py (Gen/KernelsGen.v, harness/pytrans.py), applied to the
+   frame stored for the anchor (origin, three row vectors), are the model's project / restore - for every
+   Scalar instance.  (The frames themselves: C17_model_is_source_frame.) *)
+Theorem C01_model_is_source_project : forall (T : Type) (H : Scalar T) (F : frame T) (p : V3 T) (s : T),
+  proyect_point_gen (forig F) (fmat F) p s = Ok (project F p s).
+Proof. exact (@proyect_point_gen_eq). Qed.
+Print Assumptions C01_model_is_source_project.
+
+Theorem C01_model_is_source_restore : forall (T : Type) (H : Scalar T) (F : frame T) (c : V3 T),
+  restore_point_gen c (forig F) (fmat F) = Ok (restore F c).
+Proof. exact (@restore_point_gen_eq). Qed.
+Print Assumptions C01_model_is_source_restore.
 
 (* construction succeeds, and the call succeeds on every conformation with distinct positions *)
 Theorem C01_total : forall g (ref tgt : list (V3 R)) s db,
